@@ -688,13 +688,126 @@ def h_equation_shapes(eng):
     eng.prove("eq.residual_is_left_minus_right_after_discarding_surplus_function_outputs", z3.BoolVal(bool(ok and want)), case=name, got=repr(res))
 
 
+# ---------------------------------------------------------------------------------------------
+# der(expression): chain rule over the symbols of the expression (get_derivative, case 4)
+class DExpr(MXT):
+    """a CasADi expression that is neither constant nor a symbol nor an indexed symbol"""
+
+    def sym_getattr(self, eng, name):
+        if name in ("is_constant", "is_symbolic"):
+            return stub(lambda eng: False)
+        if name == "is_op":
+            return stub(lambda eng, code: False)
+        return MXT.sym_getattr(self, eng, name)
+
+
+class DSym(MXSym):
+    def __init__(self, name, n):
+        MXSym.__init__(self, name, (n, 1))
+        self.n = n
+
+    def sym_getattr(self, eng, name):
+        if name == "numel":
+            return stub(lambda eng: self.n)
+        if name == "size":
+            return stub(lambda eng: (self.n, 1))
+        if name == "size1":
+            return stub(lambda eng: self.n)
+        if name == "size2":
+            return stub(lambda eng: 1)
+        return MXSym.sym_getattr(self, eng, name)
+
+
+class SparsityStub(Ext):
+    def __init__(self, rows, cols, nz):
+        self.rows, self.cols, self.nz = rows, cols, nz
+
+    def sym_getattr(self, eng, name):
+        if name == "has_nz":
+            return stub(lambda eng, r, c: (r, c) in self.nz)
+        if name == "size1":
+            return stub(lambda eng: self.rows)
+        if name == "size2":
+            return stub(lambda eng: self.cols)
+        if name == "nnz":
+            return stub(lambda eng: len(self.nz))
+        raise Unsupported("Sparsity.%s" % name)
+
+
+class JFn(Ext):
+    def __init__(self, sp):
+        self.sp = sp
+
+    def sym_getattr(self, eng, name):
+        if name == "sparsity_out":
+            return stub(lambda eng, i: self.sp)
+        raise Unsupported("Function.%s" % name)
+
+    def sym_call(self, eng, args, kwargs):
+        return MXT("J(deps)", tuple(args))
+
+
+NZ_PATTERNS = [set(), {(0, 0)}, {(0, 1)}, {(0, 2)}, {(0, 3)}, {(0, 5)}, {(0, 1), (0, 4)}, {(0, 2), (0, 3)}, {(0, 0), (0, 1), (0, 2), (0, 3), (0, 4), (0, 5)}]
+
+
+def h_derivative_of_expression(eng):
+    gm = install(eng)
+    cas = eng.ext_modules["casadi"]
+    deps = [DSym("x", 3), DSym("y", 1), DSym("z", 2)]     # Jacobian columns: x -> 0..2, y -> 3, z -> 4..5
+    nz = NZ_PATTERNS[eng.choice(len(NZ_PATTERNS))]
+    eng.input("structurally_nonzero_jacobian_entries", sorted(nz))
+    sp = SparsityStub(1, 6, nz)
+    cas.attrs["symvar"] = stub(lambda eng, e: VList(list(deps)))
+    cas.attrs["jacobian"] = stub(lambda eng, e, d: MXT("ca.jacobian", (e, d)))
+    cas.attrs["OP_GETNONZEROS"] = 77
+    fn = VClass("Function")
+    fn.constructor = lambda eng, c, a, k: JFn(sp)
+    cas.attrs["Function"] = fn
+    dm = VClass("DM")
+    dm.attrs["zeros"] = stub(lambda eng, *size: MXT("zeros", size))
+    cas.attrs["DM"] = dm
+    f = eng.find_function(GEN, "Generator.get_derivative")
+    state = {"outer": True}
+    ders = {}
+
+    def rec(eng, args, kwargs):
+        if state["outer"]:
+            state["outer"] = False
+            return eng.call_function(f, list(args), kwargs, bypass_contract=True)
+        d = args[1]
+        ders.setdefault(id(d), MXT("der:" + getattr(d, "nm", "?")))
+        return ders[id(d)]
+    eng.call_contracts["Generator.get_derivative"] = rec
+    g = VObj(eng.module_global(gm, "Generator"), {"src": VDict(), "for_loops": VList([]), "derivative": VDict(), "nodes": VDict()})
+    expr = DExpr("expression")
+    r = eng.call(VBound(f, g), [expr], {})
+    eng.cover("derexpr.done")
+    ok = isinstance(r, MXT) and r.kind == "ca.mtimes" and len(r.args) == 2 and isinstance(r.args[1], MXT) and r.args[1].kind == "ca.vertcat" and len(r.args[1].args) == 3
+    eng.prove("derexpr.chain_rule_is_jacobian_times_derivatives_of_the_symbols", z3.BoolVal(bool(ok)))
+    if not ok:
+        return
+    blocks = {0: range(0, 3), 1: range(3, 4), 2: range(4, 6)}
+    good = True
+    for j, d in enumerate(deps):
+        depends = any((0, c) in nz for c in blocks[j])
+        part = r.args[1].args[j]
+        is_der = isinstance(part, MXT) and part.kind == "der:" + d.nm
+        if depends and not is_der:
+            good = False
+    # (P) der(e) = sum over the symbols v of e of (de/dv) * der(v): the derivative of a symbol may be replaced by zeros only when the
+    # expression does not depend on ANY element of that (possibly vector-valued) symbol
+    eng.prove("derexpr.symbol_the_expression_depends_on_contributes_its_derivative", z3.BoolVal(good), nonzeros=sorted(nz),
+              parts=[getattr(p_, "kind", "?") for p_ in r.args[1].args])
+
+
 HARNESSES = [("Generator.exitExpression/operators", h_operator_dispatch), ("Generator.exitIfExpression", h_if_expression),
              ("Generator.exitIfEquation", h_if_equation), ("Generator.exitEquation", h_equation), ("ForLoop.__init__", h_for_range),
              ("Generator.exitForEquation", h_for_equation), ("Generator.exitForStatement", h_for_statement),
              ("Generator.exitIfStatement+exitAssignmentStatement", h_assignment_and_if_statement),
-             ("Generator.get_function", h_get_function), ("Generator.exitEquation/shapes", h_equation_shapes)]
+             ("Generator.get_function", h_get_function), ("Generator.exitEquation/shapes", h_equation_shapes),
+             ("Generator.get_derivative/expression", h_derivative_of_expression)]
 EXPECTED_COVER = {"op.done", "ifexpr.done", "ifeq.done", "eq.done", "range.done", "forloop.empty", "forloop.mapped", "forstmt.empty", "forstmt.mapped",
-                  "ifstmt.done", "fn.done", "eqshape.done"}
+                  "ifstmt.done", "fn.done", "eqshape.done", "derexpr.done"}
 BOUNDED = True
 LEVEL = "proof"
 TRUSTED = ["pyvc VC generator", "z3 5.1.0",
@@ -710,7 +823,7 @@ ASSUMPTIONS = [
 EXPLANATION = "Dispatch table against introspected CasADi interface, if-folds, residual sign, loop range."
 MANIFEST = {
     "category": "proof",
-    "text": "exitExpression is executed for every operator of the statement against the interface of the installed CasADi (introspected each run): the dispatch reaches an existing method that denotes the Modelica operator on the operands in order (/, <>, and/or, min/max/abs, elementary functions, matrix product). The if-expression and if-equation folds give ite(c1,e1,ite(c2,e2,...else)) for 1-4 conditions (first true branch wins), the residual is left - right, and ForLoop's values are exactly Modelica's start:step:stop range for all integers. exitForEquation / exitForStatement map one body function over every loop value with each formal (index, indexed symbols, free symbols) bound to its own actual and the per-iteration assignments emitted iteration by iteration; exitIfStatement folds first-true-wins per variable; get_function gives algorithm sections sequential-assignment semantics (statement k sees the values assigned before it) with inputs/outputs in declaration order; exitEquation discards surplus function outputs from the end. A bounded replay evaluates real residuals per operator, branch pattern and range.",
+    "text": "exitExpression is executed for every operator of the statement against the interface of the installed CasADi (introspected each run): the dispatch reaches an existing method that denotes the Modelica operator on the operands in order (/, <>, and/or, min/max/abs, elementary functions, matrix product). The if-expression and if-equation folds give ite(c1,e1,ite(c2,e2,...else)) for 1-4 conditions (first true branch wins), the residual is left - right, and ForLoop's values are exactly Modelica's start:step:stop range for all integers. exitForEquation / exitForStatement map one body function over every loop value with each formal (index, indexed symbols, free symbols) bound to its own actual and the per-iteration assignments emitted iteration by iteration; exitIfStatement folds first-true-wins per variable; get_function gives algorithm sections sequential-assignment semantics (statement k sees the values assigned before it) with inputs/outputs in declaration order; exitEquation discards surplus function outputs from the end; get_derivative's chain rule keeps the derivative of every (vector) symbol the expression depends on. A bounded replay evaluates real residuals per operator, branch pattern and range.",
     "note": "CasADi's numeric semantics (incl. Function.map / substitute) are assumed; interpolation, array layout and delayed symbols in for-loops are outside the contracts; list shapes are enumerated.",
     "technique": "contract-based deductive verification: symbolic execution with provenance-recording CasADi terms and introspected interface facts, integer VCs for the loop range, z3",
 }
